@@ -63,6 +63,7 @@ def main(prop):
     env[prop] = '1'
     env['CHARDB'] = cdb
     env['NAIVEMAX'] = '110000' if thorough else '30000'
+    env['NAIVESTRIDE'] = '5' if thorough else '1'
     jobs = []
     files = sorted(glob.glob(os.path.join(tdir, 'shard-*.ndjson')))
     for f in files:
